@@ -8,6 +8,7 @@ import RexModel.Props.C07
 #print axioms Rex.C07.valid_supervisor_alone
 #print axioms Rex.C07.valid_cell_data
 #print axioms Rex.C07.valid_noprune_complete
+#print axioms Rex.C07.c6_iff_missing_nil
 #print axioms Rex.C07.valid_one_kind_per_generation
 #print axioms Rex.C07.posLt_iff
 #print axioms Rex.C07.cellLe_iff
